@@ -89,24 +89,24 @@ macro_rules! lemma {
     };
 }
 // bound: variants concrete per harness (9 ordered pairs); Int symbolic in -2^15..2^15, BigUInt/BigNInt payload of 1 symbolic byte (incl. 0x00); to_bytes loop over 16 bytes: unwind 19
-lemma!(c07_q_lemma_int_int, int_small(), int_small());
-lemma!(c07_q_lemma_int_uint, int_small(), uint::<1>());
-lemma!(c07_q_lemma_int_nint, int_small(), nint::<1>());
-lemma!(c07_q_lemma_uint_int, uint::<1>(), int_small());
+lemma!(c07_t_lemma_int_int, int_small(), int_small());
+lemma!(c07_t_lemma_int_uint, int_small(), uint::<1>());
+lemma!(c07_t_lemma_int_nint, int_small(), nint::<1>());
+lemma!(c07_t_lemma_uint_int, uint::<1>(), int_small());
 lemma!(c07_q_lemma_uint_uint, uint::<1>(), uint::<1>());
 lemma!(c07_q_lemma_uint_nint, uint::<1>(), nint::<1>());
-lemma!(c07_q_lemma_nint_int, nint::<1>(), int_small());
+lemma!(c07_t_lemma_nint_int, nint::<1>(), int_small());
 lemma!(c07_q_lemma_nint_uint, nint::<1>(), uint::<1>());
 lemma!(c07_q_lemma_nint_nint, nint::<1>(), nint::<1>());
 // bound: byte payloads of concrete lengths 0 and 2 (symbolic content incl. leading zeros) against each other and against a small Int; unwind 19
 lemma!(c07_q_lemma_uint0_nint0, uint::<0>(), nint::<0>());
-lemma!(c07_q_lemma_nint0_int, nint::<0>(), int_small());
-lemma!(c07_q_lemma_int_uint0, int_small(), uint::<0>());
-lemma!(c07_q_lemma_uint2_uint1, uint::<2>(), uint::<1>());
-lemma!(c07_q_lemma_nint2_nint1, nint::<2>(), nint::<1>());
-lemma!(c07_q_lemma_uint2_int, uint::<2>(), int_small());
-lemma!(c07_q_lemma_int_nint2, int_small(), nint::<2>());
-lemma!(c07_q_lemma_nint2_uint2, nint::<2>(), uint::<2>());
+lemma!(c07_t_lemma_nint0_int, nint::<0>(), int_small());
+lemma!(c07_t_lemma_int_uint0, int_small(), uint::<0>());
+lemma!(c07_t_lemma_uint2_uint1, uint::<2>(), uint::<1>());
+lemma!(c07_t_lemma_nint2_nint1, nint::<2>(), nint::<1>());
+lemma!(c07_t_lemma_uint2_int, uint::<2>(), int_small());
+lemma!(c07_t_lemma_int_nint2, int_small(), nint::<2>());
+lemma!(c07_t_lemma_nint2_uint2, nint::<2>(), uint::<2>());
 // bound: Int over the full i64 range / the two 65-bit edge bands (-2^64..=-2^64+255, 2^64-256..=2^64-1); byte payloads 1 or 2 symbolic bytes; unwind 19
 lemma!(c07_t_lemma_i64_i64, int_i64(), int_i64());
 lemma!(c07_t_lemma_i64_uint1, int_i64(), uint::<1>());
@@ -117,3 +117,362 @@ lemma!(c07_t_lemma_edge_uint2, int_edge(), uint::<2>());
 lemma!(c07_t_lemma_nint2_edge, nint::<2>(), int_edge());
 lemma!(c07_t_lemma_uint2_uint2, uint::<2>(), uint::<2>());
 lemma!(c07_t_lemma_nint2_nint2, nint::<2>(), nint::<2>());
+
+// ---------------------------------------------------------------------------------------------
+// Constr<u8>: cmp is lexicographic on (constructor index, fields)
+// ---------------------------------------------------------------------------------------------
+fn valid_tag(t: u64) -> bool {
+    (t >= 121 && t <= 127) || (t >= 1280 && t <= 1400) || t == 102
+}
+fn idx(t: u64, anyc: u64) -> u64 {
+    if t >= 121 && t <= 127 {
+        t - 121
+    } else if t >= 1280 && t <= 1400 {
+        t - 1280 + 7
+    } else {
+        anyc
+    }
+}
+fn fields<const N: usize>(indef: bool) -> (MaybeIndefArray<u8>, [u8; N]) {
+    let b: [u8; N] = kani::any();
+    let v = b.to_vec();
+    (if indef { MaybeIndefArray::Indef(v) } else { MaybeIndefArray::Def(v) }, b)
+}
+fn lex<const A: usize, const B: usize>(a: &[u8; A], b: &[u8; B]) -> Ordering {
+    let mut i = 0;
+    while i < A && i < B {
+        if a[i] != b[i] {
+            return a[i].cmp(&b[i]);
+        }
+        i += 1;
+    }
+    A.cmp(&B)
+}
+
+macro_rules! constr_cmp {
+    ($name:ident, $la:expr, $ia:expr, $lb:expr, $ib:expr) => {
+        #[kani::proof]
+        #[kani::unwind(5)]
+        #[kani::stub(std::fmt::format, crate::stubs::fmt_format_stub)]
+        fn $name() {
+            let (ta, tb): (u64, u64) = (kani::any(), kani::any());
+            let (ca, cb): (u64, u64) = (kani::any(), kani::any());
+            kani::assume(valid_tag(ta) && valid_tag(tb));
+            let (fa, ba) = fields::<$la>($ia);
+            let (fb, bb) = fields::<$lb>($ib);
+            let a = Constr { tag: ta, any_constructor: Some(ca), fields: fa };
+            let b = Constr { tag: tb, any_constructor: Some(cb), fields: fb };
+            let got = a.cmp(&b);
+            let want = match idx(ta, ca).cmp(&idx(tb, cb)) {
+                Ordering::Equal => lex(&ba, &bb),
+                o => o,
+            };
+            assert!(got == want, "Constr::cmp is lexicographic on (constructor index, fields)");
+            assert!((a == b) == (want == Ordering::Equal), "Constr equality agrees with cmp and ignores Def/Indef and the tag encoding");
+            kani::cover!(ta == 102 && tb == 1400 && got == Ordering::Equal && ta != tb, "general form 102 equals the compact tag of the same constructor");
+            kani::cover!(ta == 127 && tb == 1280 && got == Ordering::Less, "121..127 range sorts before 1280..1400");
+            kani::cover!(idx(ta, ca) == idx(tb, cb) && got != Ordering::Equal, "same constructor, fields decide");
+            core::mem::forget(a);
+            core::mem::forget(b);
+        }
+    };
+}
+// bound: tags symbolic over the three valid ranges (121..=127, 1280..=1400, 102 with symbolic any_constructor), fields of concrete length 0..=2 with symbolic u8 content, Def/Indef concrete per harness; unwind 5
+constr_cmp!(c07_q_constr_cmp_2def_2indef, 2, false, 2, true);
+constr_cmp!(c07_q_constr_cmp_1_2, 1, false, 2, false);
+constr_cmp!(c07_t_constr_cmp_2_1, 2, true, 1, false);
+constr_cmp!(c07_t_constr_cmp_0_1, 0, false, 1, true);
+constr_cmp!(c07_t_constr_cmp_0_0, 0, true, 0, false);
+
+// ---------------------------------------------------------------------------------------------
+// PlutusData: variant rank Constr < Map < Array < BigInt < BoundedBytes, Def/Indef-insensitive equality
+// ---------------------------------------------------------------------------------------------
+fn pd(variant: u8, indef: bool) -> PlutusData {
+    match variant {
+        0 => PlutusData::Constr(Constr { tag: 121, any_constructor: None, fields: if indef { MaybeIndefArray::Indef(vec![]) } else { MaybeIndefArray::Def(vec![]) } }),
+        1 => PlutusData::Map(if indef { KeyValuePairs::Indef(vec![]) } else { KeyValuePairs::Def(vec![]) }),
+        2 => PlutusData::Array(if indef { MaybeIndefArray::Indef(vec![]) } else { MaybeIndefArray::Def(vec![]) }),
+        3 => PlutusData::BigInt(uint::<1>()),
+        _ => PlutusData::BoundedBytes(bytes::<1>()),
+    }
+}
+
+macro_rules! rank {
+    ($name:ident, $va:expr) => {
+        #[kani::proof]
+        #[kani::unwind(19)]
+        #[kani::stub(std::fmt::format, crate::stubs::fmt_format_stub)]
+        fn $name() {
+            let a = pd($va, false);
+            let mut vb: u8 = 0;
+            while vb < 5 {
+                if vb != $va {
+                    let b = pd(vb, true);
+                    let got = a.cmp(&b);
+                    assert!(got == ($va as u8).cmp(&vb), "different variants compare by rank Constr < Map < Array < BigInt < BoundedBytes");
+                    assert!(a != b, "different variants are never equal");
+                    core::mem::forget(b);
+                }
+                vb += 1;
+            }
+            let a2 = pd($va, true);
+            if $va < 3 {
+                assert!(a.cmp(&a2) == Ordering::Equal && a == a2, "empty containers are equal whatever their Def/Indef encoding");
+            }
+            kani::cover!(true, "reached");
+            core::mem::forget(a);
+            core::mem::forget(a2);
+        }
+    };
+}
+// bound: depth-0/1 values: Constr(121, no fields), empty Map, empty Array (Def on the left, Indef on the right), BigUInt(1 symbolic byte), BoundedBytes(1 symbolic byte); each variant against the four others; unwind 19
+rank!(c07_q_rank_constr, 0);
+rank!(c07_q_rank_map, 1);
+rank!(c07_q_rank_array, 2);
+rank!(c07_t_rank_bigint, 3);
+rank!(c07_t_rank_bytes, 4);
+
+fn leaf(b: u8) -> PlutusData {
+    PlutusData::BoundedBytes(BoundedBytes::from(vec![b]))
+}
+
+/// Array / Map / Constr-fields with one element: equality and order do not depend on Def vs Indef
+/// bound: one leaf element (BoundedBytes of 1 symbolic byte) per container, Def on the left, Indef on the right; unwind 6
+#[kani::proof]
+#[kani::unwind(6)]
+#[kani::stub(std::fmt::format, crate::stubs::fmt_format_stub)]
+fn c07_q_def_indef_eq() {
+    let (x, y): (u8, u8) = (kani::any(), kani::any());
+    let a = PlutusData::Array(MaybeIndefArray::Def(vec![leaf(x)]));
+    let b = PlutusData::Array(MaybeIndefArray::Indef(vec![leaf(y)]));
+    assert!(a.cmp(&b) == x.cmp(&y), "Array order = element order, Def vs Indef ignored");
+    assert!((a == b) == (x == y), "Array equality ignores Def vs Indef");
+    let c = PlutusData::Constr(Constr { tag: 122, any_constructor: None, fields: MaybeIndefArray::Def(vec![leaf(x)]) });
+    let d = PlutusData::Constr(Constr { tag: 122, any_constructor: None, fields: MaybeIndefArray::Indef(vec![leaf(y)]) });
+    assert!(c.cmp(&d) == x.cmp(&y), "Constr order = field order, Def vs Indef ignored");
+    assert!((c == d) == (x == y), "Constr equality ignores Def vs Indef");
+    kani::cover!(a == b, "equal");
+    kani::cover!(a < b, "less");
+    core::mem::forget((a, b, c, d));
+}
+
+/// bound: Map with one (key, value) pair of 1-byte leaves, Def on the left, Indef on the right; unwind 6
+#[kani::proof]
+#[kani::unwind(6)]
+#[kani::stub(std::fmt::format, crate::stubs::fmt_format_stub)]
+fn c07_q_def_indef_eq_map() {
+    let (k1, v1, k2, v2): (u8, u8, u8, u8) = (kani::any(), kani::any(), kani::any(), kani::any());
+    let a = PlutusData::Map(KeyValuePairs::Def(vec![(leaf(k1), leaf(v1))]));
+    let b = PlutusData::Map(KeyValuePairs::Indef(vec![(leaf(k2), leaf(v2))]));
+    let want = (k1, v1).cmp(&(k2, v2));
+    assert!(a.cmp(&b) == want, "Map order = (key, value) order, Def vs Indef ignored");
+    assert!((a == b) == (want == Ordering::Equal), "Map equality ignores Def vs Indef");
+    kani::cover!(a == b, "equal");
+    kani::cover!(k1 == k2 && a > b, "value decides");
+    core::mem::forget((a, b));
+}
+
+// ---------------------------------------------------------------------------------------------
+// round trips
+// ---------------------------------------------------------------------------------------------
+fn enc<T: minicbor::Encode<()>, const N: usize>(v: &T, buf: &mut [u8; N]) -> usize {
+    let mut w: &mut [u8] = &mut buf[..];
+    let r = minicbor::encode(v, &mut w);
+    assert!(r.is_ok(), "value fits the buffer");
+    core::mem::forget(r);
+    N - w.len()
+}
+
+macro_rules! bb_roundtrip {
+    ($name:ident, $n:expr, $buf:expr) => {
+        #[kani::proof]
+        #[kani::unwind(6)]
+        #[kani::stub(std::fmt::format, crate::stubs::fmt_format_stub)]
+        fn $name() {
+            const N: usize = $n;
+            let b: [u8; N] = kani::any();
+            let v = BoundedBytes::from(b.to_vec());
+            let mut buf = [0u8; $buf];
+            let n = enc(&v, &mut buf);
+            if N <= 64 {
+                assert!(buf[0] != 0x5f, "up to 64 bytes: one definite byte string");
+            } else {
+                assert!(buf[0] == 0x5f && buf[1] == 0x58 && buf[2] == 0x40 && buf[n - 1] == 0xff, "longer: indefinite string of 64-byte chunks (Haskell encoding)");
+                assert!(n == 1 + N + 2 * ((N + 63) / 64) + 1 - if N % 64 != 0 && N % 64 < 24 { 1 } else { 0 }, "chunk headers account for every byte");
+            }
+            let r = minicbor::decode::<BoundedBytes>(&buf[..n]);
+            match &r {
+                Ok(d) => {
+                    assert!(d.len() == N, "decoded length equals the original length");
+                    if N > 0 {
+                        let i: usize = kani::any();
+                        kani::assume(i < N);
+                        assert!(d[i] == b[i], "every decoded byte equals the original byte");
+                    }
+                }
+                Err(_) => assert!(false, "own encoding decodes"),
+            }
+            kani::cover!(r.is_ok(), "round trip");
+            core::mem::forget((v, r));
+        }
+    };
+}
+// bound: byte strings of concrete length N at the 64-byte chunk boundary with symbolic content; comparison at a symbolic index (no loop); unwind 6
+bb_roundtrip!(c07_q_bytes_rt_0, 0, 8);
+bb_roundtrip!(c07_q_bytes_rt_1, 1, 8);
+bb_roundtrip!(c07_q_bytes_rt_64, 64, 72);
+bb_roundtrip!(c07_q_bytes_rt_65, 65, 80);
+bb_roundtrip!(c07_t_bytes_rt_63, 63, 72);
+bb_roundtrip!(c07_t_bytes_rt_128, 128, 140);
+bb_roundtrip!(c07_t_bytes_rt_129, 129, 144);
+
+macro_rules! indef_split {
+    ($name:ident, $s:expr) => {
+        #[kani::proof]
+        #[kani::unwind(9)]
+        #[kani::stub(std::fmt::format, crate::stubs::fmt_format_stub)]
+        fn $name() {
+            const S: usize = $s;
+            let b: [u8; 6] = kani::any();
+            // 5f (40+S) b[..S] (40+6-S) b[S..] ff
+            let mut buf = [0u8; 10];
+            buf[0] = 0x5f;
+            buf[1] = 0x40 + S as u8;
+            let mut i = 0;
+            while i < S {
+                buf[2 + i] = b[i];
+                i += 1;
+            }
+            buf[2 + S] = 0x40 + (6 - S) as u8;
+            while i < 6 {
+                buf[3 + i] = b[i];
+                i += 1;
+            }
+            buf[9] = 0xff;
+            let r = minicbor::decode::<PlutusData>(&buf[..]);
+            match &r {
+                Ok(PlutusData::BoundedBytes(d)) => {
+                    assert!(d.len() == 6, "chunks are re-assembled");
+                    let j: usize = kani::any();
+                    kani::assume(j < 6);
+                    assert!(d[j] == b[j], "re-assembled bytes do not depend on the chunk split");
+                }
+                _ => assert!(false, "indefinite byte string decodes as BoundedBytes"),
+            }
+            kani::cover!(r.is_ok(), "decoded");
+            core::mem::forget(r);
+        }
+    };
+}
+// bound: hand-laid indefinite byte string of 6 symbolic bytes split into two chunks at a concrete point S; unwind 9
+indef_split!(c07_q_indef_split_0, 0);
+indef_split!(c07_q_indef_split_3, 3);
+indef_split!(c07_t_indef_split_1, 1);
+indef_split!(c07_t_indef_split_6, 6);
+
+macro_rules! bigint_bytes_rt {
+    ($name:ident, $n:expr, $neg:expr) => {
+        #[kani::proof]
+        #[kani::unwind(6)]
+        #[kani::stub(std::fmt::format, crate::stubs::fmt_format_stub)]
+        fn $name() {
+            const N: usize = $n;
+            let b: [u8; N] = kani::any();
+            let v = if $neg { BigInt::BigNInt(BoundedBytes::from(b.to_vec())) } else { BigInt::BigUInt(BoundedBytes::from(b.to_vec())) };
+            let mut buf = [0u8; 16];
+            let n = enc(&v, &mut buf);
+            assert!(buf[0] == if $neg { 0xc3 } else { 0xc2 }, "bignum tag 2 / 3");
+            let r = minicbor::decode::<BigInt>(&buf[..n]);
+            match &r {
+                Ok(BigInt::BigUInt(d)) => {
+                    assert!(!$neg && d.len() == N, "BigUInt keeps its representation");
+                    if N > 0 { let i: usize = kani::any(); kani::assume(i < N); assert!(d[i] == b[i], "payload bytes kept (leading zeros included)"); }
+                }
+                Ok(BigInt::BigNInt(d)) => {
+                    assert!($neg && d.len() == N, "BigNInt keeps its representation");
+                    if N > 0 { let i: usize = kani::any(); kani::assume(i < N); assert!(d[i] == b[i], "payload bytes kept (leading zeros included)"); }
+                }
+                _ => assert!(false, "bignum decodes as a bignum"),
+            }
+            kani::cover!(r.is_ok(), "round trip");
+            core::mem::forget(r);
+        }
+    };
+}
+// bound: BigUInt / BigNInt with payloads of concrete length 0, 1, 9 and symbolic content (BigInt codec); unwind 6
+bigint_bytes_rt!(c07_q_bigint_rt_uint9, 9, false);
+bigint_bytes_rt!(c07_q_bigint_rt_nint1, 1, true);
+bigint_bytes_rt!(c07_t_bigint_rt_uint0, 0, false);
+bigint_bytes_rt!(c07_t_bigint_rt_nint9, 9, true);
+
+macro_rules! int_rt {
+    ($name:ident, $lo:expr, $hi:expr) => {
+        #[kani::proof]
+        #[kani::unwind(6)]
+        #[kani::stub(std::fmt::format, crate::stubs::fmt_format_stub)]
+        fn $name() {
+            let m: u64 = kani::any();
+            kani::assume(m >= $lo && m <= $hi);
+            let neg: bool = kani::any();
+            let val: i128 = if neg { -1 - m as i128 } else { m as i128 };
+            let v = int_of(val);
+            let mut buf = [0u8; 16];
+            let n = enc(&v, &mut buf);
+            let r = minicbor::decode::<BigInt>(&buf[..n]);
+            match &r {
+                Ok(BigInt::Int(i)) => assert!(i128::from(*i) == val, "Int round-trips"),
+                _ => assert!(false, "an integer decodes as BigInt::Int"),
+            }
+            kani::cover!(neg && m == $hi, "most negative of the class");
+            kani::cover!(!neg && m == $lo, "least positive of the class");
+            core::mem::forget((v, r));
+        }
+    };
+}
+// bound: BigInt::Int over the whole CBOR integer range -2^64..2^64-1, one harness per head class (argument 0..=23, 1, 2, 4, 8 bytes), sign symbolic; unwind 6
+int_rt!(c07_q_int_rt_tiny, 0u64, 23u64);
+int_rt!(c07_q_int_rt_u8, 24u64, 0xffu64);
+int_rt!(c07_t_int_rt_u16, 0x100u64, 0xffffu64);
+int_rt!(c07_t_int_rt_u32, 0x1_0000u64, 0xffff_ffffu64);
+int_rt!(c07_q_int_rt_u64, 0x1_0000_0000u64, u64::MAX);
+
+macro_rules! shape_rt {
+    ($name:ident, $mk:expr, |$d:ident| $check:expr) => {
+        #[kani::proof]
+        #[kani::unwind(6)]
+        #[kani::stub(std::fmt::format, crate::stubs::fmt_format_stub)]
+        fn $name() {
+            let v: PlutusData = $mk;
+            let mut buf = [0u8; 24];
+            let n = enc(&v, &mut buf);
+            let r = minicbor::decode::<PlutusData>(&buf[..n]);
+            match &r {
+                Ok($d) => {
+                    assert!($check, "decoded value has the original shape");
+                    assert!(*$d == v, "decoded value equals the original");
+                }
+                Err(_) => assert!(false, "own encoding decodes"),
+            }
+            kani::cover!(r.is_ok(), "round trip");
+            core::mem::forget((v, r));
+        }
+    };
+}
+// bound: depth-1 containers with one 1-byte leaf; Constr tags symbolic within each range (121..=127 / 1280..=1400 / 102 with symbolic constructor), Def and Indef; unwind 6
+shape_rt!(c07_q_shape_rt_constr_compact, { let t: u64 = kani::any(); kani::assume((t >= 121 && t <= 127) || (t >= 1280 && t <= 1400)); PlutusData::Constr(Constr { tag: t, any_constructor: None, fields: MaybeIndefArray::Indef(vec![leaf(kani::any())]) }) }, |d| matches!(d, PlutusData::Constr(c) if c.any_constructor.is_none() && matches!(c.fields, MaybeIndefArray::Indef(_))));
+shape_rt!(c07_q_shape_rt_constr_general, { PlutusData::Constr(Constr { tag: 102, any_constructor: Some(kani::any()), fields: MaybeIndefArray::Def(vec![leaf(kani::any())]) }) }, |d| matches!(d, PlutusData::Constr(c) if c.tag == 102 && c.any_constructor.is_some() && matches!(c.fields, MaybeIndefArray::Def(_))));
+shape_rt!(c07_q_shape_rt_array_indef, { PlutusData::Array(MaybeIndefArray::Indef(vec![leaf(kani::any())])) }, |d| matches!(d, PlutusData::Array(MaybeIndefArray::Indef(x)) if x.len() == 1));
+shape_rt!(c07_t_shape_rt_array_def, { PlutusData::Array(MaybeIndefArray::Def(vec![leaf(kani::any())])) }, |d| matches!(d, PlutusData::Array(MaybeIndefArray::Def(x)) if x.len() == 1));
+shape_rt!(c07_q_shape_rt_map_def, { PlutusData::Map(KeyValuePairs::Def(vec![(leaf(kani::any()), leaf(kani::any()))])) }, |d| matches!(d, PlutusData::Map(KeyValuePairs::Def(x)) if x.len() == 1));
+shape_rt!(c07_t_shape_rt_map_indef, { PlutusData::Map(KeyValuePairs::Indef(vec![(leaf(kani::any()), leaf(kani::any()))])) }, |d| matches!(d, PlutusData::Map(KeyValuePairs::Indef(x)) if x.len() == 1));
+
+/// vacuity twin: must come back FAILED
+#[kani::proof]
+#[kani::unwind(19)]
+#[kani::stub(std::fmt::format, crate::stubs::fmt_format_stub)]
+fn c07_v_twin() {
+    let a = uint::<1>();
+    let b = nint::<1>();
+    assert!(a.cmp(&b) == Ordering::Greater, "twin: must fail");
+    core::mem::forget((a, b));
+}
